@@ -1,3 +1,126 @@
-From ZV Require Import Lib.Base Model.Tenant.
-Theorem C23_placeholder : True. Proof. exact I. Qed.
-Print Assumptions C23_placeholder.
+(** C23 — Tenants never see another tenant's repositories.
+    Model: Model/Tenant.v (tenant.HasAccess, indexData.Search incl. the final addRepo loop, indexData.List,
+    collectSender-style aggregation over shards).  The query is abstract: [scan] (does Search reach its
+    document loop), [m] (which documents match), [lsimp] (what d.simplify folds the List query to); all
+    theorems quantify over them, i.e. over all queries, and over all shards (any mix of tenants,
+    tombstones, sub-repositories, duplicate names).  [strict = true] is SRC_TENANT_ENFORCEMENT_MODE=strict. *)
+From ZV Require Import Lib.Base Model.Tenant Proofs.Tenant.
+
+(** Search, every output channel: each file match is a live matching document of a repository the caller
+    has access to (and carries that repository's name/id and one of its sub-repository names), and every
+    entry of RepoURLs / LineFragments is the (name, template) pair of such a repository or of one of its
+    sub-repositories. *)
+Theorem C23_no_leak_search : forall c s scan lim1 m,
+  let res := search true c s scan lim1 m in
+  (forall f, In f (sr_files res) ->
+     exists r ds d, In (r, ds) s /\ has_access true c (r_tenant r) = true /\ r_tomb r = false /\
+                    In d ds /\ d_ftomb d = false /\ m r d = true /\
+                    fm_repo f = r_name r /\ fm_repoid f = r_id r /\ fm_file f = d_file d /\
+                    (fm_subname f = 0%N \/ In (fm_subname f) (map sr_name (r_subs r)))) /\
+  (forall p, In p (sr_urls res) ->
+     exists r, In r (map fst s) /\ has_access true c (r_tenant r) = true /\ In p (repo_url_pairs r)) /\
+  (forall p, In p (sr_frags res) ->
+     exists r, In r (map fst s) /\ has_access true c (r_tenant r) = true /\ In p (repo_frag_pairs r)).
+Proof.
+  intros c s scan lim1 m res. destruct (search_no_leak true c s scan lim1 m) as (H1 & H2 & H3).
+  split; [|split; assumption].
+  intros f Hf. destruct (H1 f Hf) as (r & ds & d & Hs & Ha & Ht & Hd & Hft & Hm & E).
+  exists r, ds, d. subst f. cbn. repeat split; auto. apply sub_name_cases.
+Qed.
+Print Assumptions C23_no_leak_search.
+
+(** List: every listed name / ReposMap key belongs to a live repository the caller has access to, and
+    the document statistic counts only documents of the caller's repositories. *)
+Theorem C23_no_leak_list : forall c s lsimp scan m field,
+  let res := rlist true c s lsimp scan m field in
+  (forall n, In n (lr_repos res) ->
+     exists r ds, In (r, ds) s /\ has_access true c (r_tenant r) = true /\ r_tomb r = false /\ n = r_name r) /\
+  (forall i, In i (lr_map res) ->
+     exists r ds, In (r, ds) s /\ has_access true c (r_tenant r) = true /\ r_tomb r = false /\ i = r_id r) /\
+  (lr_docs res <= docs_total (own true c s))%N.
+Proof. exact (rlist_no_leak true). Qed.
+Print Assumptions C23_no_leak_list.
+
+(** Non-interference (covers every channel at once, including order and statistics): deleting all
+    repositories of other tenants from the shard changes neither the search result nor the listing. *)
+Theorem C23_noninterference : forall c s scan lim1 m lsimp field,
+  search true c (own true c s) scan lim1 m = search true c s scan lim1 m /\
+  rlist true c (own true c s) lsimp scan m field = rlist true c s lsimp scan m field.
+Proof. intros. split; [apply search_own | apply rlist_own]. Qed.
+Print Assumptions C23_noninterference.
+
+(** A request without a tenant sees nothing at all. *)
+Theorem C23_no_tenant_sees_nothing : forall s scan lim1 m lsimp field,
+  search true CtxNone s scan lim1 m = empty_sresult /\
+  rlist true CtxNone s lsimp scan m field = empty_lresult.
+Proof. intros. split; [apply search_none_empty | apply rlist_none_empty]. Qed.
+Print Assumptions C23_no_tenant_sees_nothing.
+
+(** Only the system context sees everything: it gets exactly what a server without enforcement returns,
+    every live matching document, and every live repository in a full listing. *)
+Theorem C23_system_sees_all : forall s scan lim1 m lsimp field c',
+  search true CtxSystem s scan lim1 m = search false c' s scan lim1 m /\
+  rlist true CtxSystem s lsimp scan m field = rlist false c' s lsimp scan m field /\
+  (forall r ds d, In (r, ds) s -> In d ds -> r_tomb r = false -> d_ftomb d = false -> m r d = true ->
+     In (mk_fm r d) (sr_files (search true CtxSystem s true false m))) /\
+  (forall r ds, In (r, ds) s -> r_tomb r = false ->
+     In (r_name r) (lr_repos (rlist true CtxSystem s (Some true) scan m FRepos))).
+Proof.
+  intros. split; [reflexivity|]. split; [reflexivity|]. split.
+  - intros. eapply system_search_complete; eauto.
+  - intros. eapply system_list_complete; eauto.
+Qed.
+Print Assumptions C23_system_sees_all.
+
+(** The filter removes nothing else: a tenant receives every live matching document of its own repositories. *)
+Theorem C23_tenant_sees_own : forall t s m r ds d,
+  In (r, ds) s -> In d ds -> r_tenant r = t -> r_tomb r = false -> d_ftomb d = false -> m r d = true ->
+  In (mk_fm r d) (sr_files (search true (CtxTenant t) s true false m)).
+Proof. exact tenant_search_complete. Qed.
+Print Assumptions C23_tenant_sees_own.
+
+(** The sharded searcher: whatever sub-list of shards it selects and whatever (rewritten, type:repo
+    expanded) query each shard receives, the aggregated result only exposes repositories of the caller. *)
+Theorem C23_no_leak_sharded : forall c ss,
+  let res := sharded_search true c ss in
+  (forall f, In f (sr_files res) ->
+     exists s scan m r ds d, In (s, (scan, m)) ss /\ In (r, ds) s /\ has_access true c (r_tenant r) = true /\
+                             r_tomb r = false /\ In d ds /\ d_ftomb d = false /\ m r d = true /\ f = mk_fm r d) /\
+  (forall p, In p (sr_urls res) ->
+     exists s sm r, In (s, sm) ss /\ In r (map fst s) /\ has_access true c (r_tenant r) = true /\ In p (repo_url_pairs r)) /\
+  (forall p, In p (sr_frags res) ->
+     exists s sm r, In (s, sm) ss /\ In r (map fst s) /\ has_access true c (r_tenant r) = true /\ In p (repo_frag_pairs r)).
+Proof. exact (sharded_no_leak true). Qed.
+Print Assumptions C23_no_leak_sharded.
+
+(** The code before the repair (final addRepo loop without access check; /repo commit 2fc86b1 fixes it):
+    the statement about RepoURLs is false — tenant 1 receives (name 2 -> template 12) of tenant 2's repository. *)
+Theorem C23_no_leak_refuted_before_fix :
+  exists c s m p,
+    In p (sr_urls (search_unfixed true c s true false m)) /\
+    ~ exists r, In r (map fst s) /\ has_access true c (r_tenant r) = true /\ In p (repo_url_pairs r).
+Proof. exact unfixed_leaks. Qed.
+Print Assumptions C23_no_leak_refuted_before_fix.
+
+(** ---- non-vacuity ---- *)
+(** a compound shard of two tenants; tenant 1 searches a query matching everything: it receives its own file
+    and its own URL entries only, although tenant 2's repository (with a sub-repository) is in the shard *)
+Example C23_nonvacuous_search :
+  let res := search true (CtxTenant 1) leak_shard true false (fun _ _ => true) in
+  map fm_row (sr_files res) = [(1, 101, 1001, 0)]%N /\ sr_urls res = [(1, 11)]%N /\ sr_frags res = [(1, 21)]%N /\
+  sr_urls (search true CtxSystem leak_shard true false (fun _ _ => true)) = [(1, 11); (2, 12); (3, 13)]%N /\
+  map fm_row (sr_files (search true (CtxTenant 2) leak_shard true false (fun _ _ => true))) = [(2, 102, 1002, 3)]%N.
+Proof. vm_compute. repeat split. Qed.
+
+Example C23_nonvacuous_list :
+  lr_repos (rlist true (CtxTenant 2) leak_shard None true (fun _ _ => true) FRepos) = [2%N] /\
+  lr_map (rlist true (CtxTenant 2) leak_shard (Some true) true (fun _ _ => true) FReposMap) = [102%N] /\
+  lr_repos (rlist true CtxSystem leak_shard (Some true) true (fun _ _ => true) FRepos) = [1; 2]%N /\
+  own true (CtxTenant 1) leak_shard <> leak_shard.
+Proof. vm_compute. repeat split. intro H. discriminate H. Qed.
+
+Example C23_nonvacuous_sharded :
+  sr_urls (sharded_search true (CtxTenant 2)
+             [(leak_shard, (true, fun _ _ => true)); ([(leak_repo1, [])], (true, fun _ _ => true))])
+  = [(2, 12); (3, 13)]%N.
+Proof. vm_compute. reflexivity. Qed.
